@@ -120,7 +120,9 @@ def run_writers(ctx):
                 adj = rng.randint(1, 9)
                 sh = (rng.choice([0.0, 0.25]), rng.choice([0.5, 0.0078125, 0.125]), rng.choice([0.0, 0.0625])) if exact else \
                      (rng.choice([0.0, 0.003]), rng.choice([0.0004, 0.001]), rng.choice([0.0, 0.0002]))
-                w = _path(rng, NasuWaveguide, exact, adj_scan=adj, adj_scan_shift=sh, shrink_correction_factor=rng.choice([1.0, 1.0, 1.25, 0.8]))
+                # (a Nasu waveguide also carries the inherited scan count; the Nasu file writes one pass per adjacent scan whatever it is)
+                w = _path(rng, NasuWaveguide, exact, adj_scan=adj, adj_scan_shift=sh, shrink_correction_factor=rng.choice([1.0, 1.0, 1.25, 0.8]),
+                          scan=rng.choice([1, 1, 3, 4]))
                 objs.append(w)
                 mobjs.append({'pts': _pts(w), 'adj_scan': adj, 'shift': [q(v) for v in sh]})
                 n_open_expected += adj * _open_moves(w)
@@ -171,7 +173,10 @@ def run_writers(ctx):
                         else:
                             mobjs.append({'pts': _pts(o), 'scan': o.scan})
                         n_open_expected += scan2 * sum(_open_moves(w) for w in grp)
-                wr = writer_cls(**{arg: list(objs)}, **cfg)
+                same_writer = rng.random() < 0.5
+                ctx.count('writers.second_export', 'same-writer' if same_writer else 'new-writer')
+                if not same_writer:
+                    wr = writer_cls(**{arg: list(objs)}, **cfg)
                 wr.pgm(verbose=False)
             listing = sorted(str(p.relative_to(d)) for p in d.rglob('*') if p.is_file())
             text = (d / listing[0]).read_text() if listing else ''
